@@ -342,7 +342,45 @@ def run(ctx):
         ctx.oblige("model BFS on small instances agrees with the theorems (bound never violated; release/abort never violated for the code as it is, violated for each old shape)",
                    okb, json.dumps(bfs)[:300])
 
+    # -- byte level: per-buffer bound (C12_buffer_rotation_bound over Model/ChanOut.v) ----------------
+    from harness import chanout as HO
+    co_runner = ctx.runner("chanout", "ExtChanout.v")
+    cob = {"cases": 0, "ops_compared": 0, "disagreements": 0, "bound_or_fifo_problems": 0, "rotations_seen": 0, "max_buffers": 0}
+    if co_runner is None:
+        ctx.oblige("extracted ChanOut model runner builds", False, "see notes")
+    else:
+        n_co = 8000 if ctx.tier == "thorough" else 700
+        co_cases = [HO.gen_case(ctx.rng, big=(i % 20 == 19)) for i in range(n_co)]
+        answers = co_runner.query([HO.model_line(c) for c in co_cases])
+        co_bad = []
+        for c, a in zip(co_cases, answers):
+            rows, problems = HO.run_real(c)
+            cob["cases"] += 1
+            cob["ops_compared"] += len(rows)
+            nb = max([r.count(",") + 1 for r in rows if r.startswith("wire=")] or [1])
+            cob["max_buffers"] = max(cob["max_buffers"], nb)
+            cob["rotations_seen"] += 1 if nb > 1 else 0
+            d = HO.compare(rows, a)
+            if d is not None:
+                cob["disagreements"] += 1
+                co_bad.append(("model", c, d))
+            if problems:
+                cob["bound_or_fifo_problems"] += 1
+                co_bad.append(("spec", c, problems[0]))
+        for kind, c, d in sorted(co_bad, key=lambda t: (t[0] != "spec", len(json.dumps(t[1]))))[:2]:
+            what = ("output buffers of the real channel (write_soon / _flush_some): operation %d: %s" % (d[0] + 1, d[1]) if kind == "spec"
+                    else "real write_soon / _flush_some and Model/ChanOut.v disagree at operation %d: model %s | real %s" % (d[0] + 1, d[1], d[2]))
+            ctx.report("chanout:%s:%s" % (kind, hashlib.sha1(json.dumps(c, sort_keys=True).encode()).hexdigest()[:8]), what,
+                       {"kind": "chanout", "case": c, "against": kind, "observed": d[1] if kind == "spec" else d[2],
+                        "expected": "every OverflowableBuffer <= max(high_watermark-1,0)+W, counters exact, FIFO" if kind == "spec" else d[1],
+                        "failing_input_found": kind == "spec"})
+        ctx.oblige("K-chanout (C12 slice): the real write_soon / _flush_some agree with Model/ChanOut.v after every operation and, on the same runs, every "
+                   "OverflowableBuffer holds at most max(outbuf_high_watermark-1,0)+W bytes, current_outbuf_count stays within that bound, "
+                   "total_outbufs_len is exact (%d histories, %d with more than one output buffer)" % (cob["cases"], cob["rotations_seen"]),
+                   cob["disagreements"] == 0 and cob["bound_or_fifo_problems"] == 0 and cob["rotations_seen"] > 0)
+
     ctx.coverage.update({
+        "byte_level_buffer_bound": cob,
         "evaluations": camp.runs,
         "traces_validated_against_impl": camp.followed - camp.follow_bad,
         "operations_compared": camp.events,
@@ -370,6 +408,18 @@ def replay(data):
     kind = data.get("kind")
     if kind == "shape":
         return 1 if cf.shape_audit(vcommon.SRC) else 0
+    if kind == "chanout":
+        from harness import chanout as HO
+        rows, problems = HO.run_real(data["case"])
+        for op, r in zip(data["case"]["ops"], rows):
+            print("  %-40s -> %s" % (json.dumps(op)[:40], r))
+        print("specification now: %r" % (problems,))
+        d = None
+        rp = os.path.join(vcommon.VERIF, "ocaml", "chanout", "runner")
+        if os.path.exists(rp):
+            d = HO.compare(rows, vcommon.Runner(rp).query([HO.model_line(data["case"])])[0])
+            print("model comparison now: %r" % (d,))
+        return 1 if (problems or d) else 0
     scn = data["scenario"]
     w = cf.build_world(scn, schedule=data.get("choices", ()))
     verdict = w.run()
